@@ -4,7 +4,7 @@ from __future__ import annotations
 
 import ast
 
-from sa.astutil import call_name, calls_in, contains, enclosing_loop, enclosing_tests, expand, kw, names_in, stmt_calls
+from sa.astutil import returns_of, call_name, calls_in, contains, enclosing_loop, enclosing_tests, expand, kw, names_in, stmt_calls
 from sa.cfg import ends_in_raise, handler_catches_all
 from sa.index import AnalysisError, ClassInfo, FuncInfo, ancestors, dotted, enclosing_stmt, norm, walk_local, walk_ordered
 
@@ -117,10 +117,36 @@ def r1_no_swallowing_handler(ctx):
     ctx.floor(len(sp), 18, rule="C09.R1#spine")
 
 
+def _swallowing_context_managers(ctx):
+    """Context managers of the package must let exceptions through: a class whose __exit__ can return
+    something truthy, or a @contextmanager generator that catches around its yield without re-raising,
+    swallows every error raised inside its `with` block (the whole run is wrapped in set_random_seed)."""
+    n = 0
+    for ci in ctx.repo.classes.values():
+        ex = ci.methods.get("__exit__")
+        if ex is None:
+            continue
+        n += 1
+        bad = [r for r in returns_of(ex) if r.value is not None and not (isinstance(r.value, ast.Constant) and r.value.value in (None, False))]
+        ctx.check(not bad, ex.qual + "#returns", "__exit__ never returns a truthy value" if not bad else f"`{norm(bad[0])[:50]}`: __exit__ may return a truthy value and then suppresses every exception raised inside the with block", where=ex, node=bad[0] if bad else ex.node)
+    for f in ctx.repo.all_functions():
+        if not any(d.split(".")[-1] == "contextmanager" for d in f.decorators):
+            continue
+        n += 1
+        for t in [x for x in walk_local(f.node) if isinstance(x, ast.Try)]:
+            if not any(isinstance(y, (ast.Yield, ast.YieldFrom)) for b in t.body for y in ast.walk(b)):
+                continue
+            for h in t.handlers:
+                reraises = any(isinstance(x, ast.Raise) for x in ast.walk(ast.Module(body=h.body, type_ignores=[])))
+                ctx.check(reraises, f.qual + "#handler", "the handler around the yield re-raises" if reraises else "a @contextmanager catches around its yield without re-raising: errors raised inside the with block are swallowed", where=f, node=h)
+    return n
+
+
 def r2_no_masking_constructs(ctx):
     """No spine function uses contextlib.suppress, a `finally` that returns/breaks/continues, or catches and converts errors into warnings/logs only."""
     sp = spine(ctx)
     sp_quals = {x.qual for x in sp}
+    _swallowing_context_managers(ctx)
     n = 0
     for f in sp:
         n += 1
